@@ -197,13 +197,55 @@ pub fn admin(ex: &mut Exec, a: &AdminOp, pending: bool) {
 				let cc = new_col_cfg(kk, fnv64(0, k.as_bytes()) ^ n as u64);
 				(kk, cc)
 			});
-			match Db::reset_column(&mut options, c as u8, newopt.as_ref().map(|(_, cc)| column_options(cc))) {
+			// In a third of the resets that change the options the first file removal fails (EIO, and
+			// every later one): nothing has been removed yet, so the database must be exactly what it
+			// was and must still open with its old options.
+			let faulted = ex.cfg.scenario == "admin" && newopt.is_some() && (n + c) % 3 == 0;
+			if faulted {
+				simdisk::with(|d| {
+					d.fail_plan = Some(simdisk::FailPlan { after: 0, errno: libc::EIO, sticky: true, only_mask: 1u32 << simdisk::Ev::Unlink as u32 });
+					d.fail_tripped = false;
+					d.fail_count = 0;
+					d.begin_step();
+				});
+			}
+			let mut o2 = options.clone();
+			let r = Db::reset_column(&mut o2, c as u8, newopt.as_ref().map(|(_, cc)| column_options(cc)));
+			let fired = if faulted {
+				simdisk::with(|d| {
+					let f = d.fail_count > 0;
+					d.end_step();
+					d.clear_faults();
+					f
+				})
+			} else {
+				false
+			};
+			match r {
 				Ok(()) => {
+					options = o2;
 					if let Some((kk, cc)) = newopt {
 						new_kinds[c] = kk;
 						new_cfgs[c] = cc;
 					}
 					affected = Some(c);
+				},
+				Err(_) if fired => {
+					ex.stats.probe("admin_reset_failed_by_injected_unlink_error");
+					match Db::open(&options) {
+						Ok(db) => {
+							drop(db);
+							affected = None;
+						},
+						Err(e) => {
+							ex.push_violation(
+								"C17",
+								"failed-reset-left-database-unopenable",
+								format!("reset_column of column {c} failed at its first file removal (injected EIO); the database no longer opens with its previous options: {e}"),
+							);
+							return
+						},
+					}
 				},
 				Err(e) => {
 					ex.push_violation("C17", "admin-call-failed", format!("reset_column failed: {e}"));
